@@ -7,6 +7,7 @@ mod observer;
 mod problem;
 mod rec_ipm;
 mod rec_more;
+mod replay_qdldl;
 
 use rand::rngs::StdRng;
 use rand::{Rng, SeedableRng};
@@ -69,6 +70,10 @@ fn main() {
         "dist" => cmd_dist(&args),
         "print" => cmd_print(&args),
         "timelimit" => cmd_timelimit(&args),
+        "qdldl-replay" => {
+            let r = replay_qdldl::replay_file(&args.get("in", "behaviours.ndjson"), &args.get("out", "mismatch.ndjson"));
+            println!("{}", r);
+        }
         "budget-replay" => cmd_budget_replay(&args),
         "print-replay" => cmd_print_replay(&args),
         _ => {
